@@ -89,7 +89,7 @@ Definition check_mc (c : mc_case) : bool :=
   let M := prodn (mc_lead c) in
   let n := mc_n c in
   let Fs := Qred (f2q (mc_fs c)) in
-  match mt_front n (mc_nfft_arg c) Fs (mc_low_bias c) (mc_bw c) (mc_nw c) (mc_dpss_args c)
+  match mt_front n (mc_nfft_arg c) (nw_csd (oq (mc_bw c)) (oq (mc_nw c)) n Fs) (mc_low_bias c) (mc_dpss_args c)
                  (map rowc (mc_s c)) (map rowq (mc_dpss c)) (rowq (mc_eig c))
                  (mc_fft_n c) (map rowc (mc_fft_in c)) with
   | None => false
